@@ -148,6 +148,8 @@ func (ds *NativeSM) Loaded() {
 
 // Close closes the underlying user state machine and set the destroyed flag.
 func (ds *NativeSM) Close() error {
+	ds.mu.Lock()
+	defer ds.mu.Unlock()
 	if err := ds.sm.Close(); err != nil {
 		return err
 	}
